@@ -3,7 +3,8 @@ from pyvc.api import (Const, DictOf, Enum, Int, Items, ListOf, Loop, Named, Obj,
                       Str, TupleOf, contract, harness, implies, forall)
 
 BIND = {"peoe": "pdb2pqr.ligand.peoe", "equilibrate": "pdb2pqr.ligand.peoe:equilibrate",
-        "RADII": "pdb2pqr.ligand:RADII", "Mol2Atom": "pdb2pqr.ligand.mol2:Mol2Atom"}
+        "RADII": "pdb2pqr.ligand:RADII", "Mol2Atom": "pdb2pqr.ligand.mol2:Mol2Atom",
+        "Mol2Molecule": "pdb2pqr.ligand.mol2:Mol2Molecule"}
 
 TYPES = ("H", "C.3", "O.co2", "N.4", "CL")
 
@@ -189,3 +190,41 @@ for _tag, _types in (("HCO", ("H", "C.3", "O.co2")), ("CNC", ("C.3", "N.4", "C.3
         equilibrate(m1, num_cycles=1)
         equilibrate(m2, num_cycles=1)
         return m1
+
+
+# ---------------------------------------------------------------- reading the MOL2 atom block
+# every line of the ATOM section becomes exactly one atom, keyed by its name, with the line's own coordinates and type
+# (type case normalised); text before the section and blank lines contribute nothing; a repeated atom name is an error
+from pyvc.api import TmpPath as _TmpPath, fmt as _fmt, Enum as _Enum  # noqa: E402
+
+
+@_harness("C16", params={"p": _TmpPath(), "x1": Real, "y1": Real, "z1": Real, "x2": Real, "q2": Real, "dup": _Enum(0, 1)},
+          requires=["len(fmt(x1, '.4f')) <= 10 and len(fmt(y1, '.4f')) <= 10 and len(fmt(z1, '.4f')) <= 10 "
+                    "and len(fmt(x2, '.4f')) <= 10 and len(fmt(q2, '.4f')) <= 10", "p != ''"],
+          ensures=[
+              "dup == 0",
+              "len(result.atoms) == 2 and 'C1' in result.atoms and 'O1' in result.atoms",
+              "result.atoms['C1'].x == float(fmt(x1, '.4f')) and result.atoms['C1'].y == float(fmt(y1, '.4f')) "
+              "and result.atoms['C1'].z == float(fmt(z1, '.4f'))",
+              "result.atoms['O1'].x == float(fmt(x2, '.4f')) and result.atoms['O1'].mol2charge == float(fmt(q2, '.4f'))",
+              "result.atoms['C1'].type == 'C.3' and result.atoms['O1'].type == 'O.co2' and result.atoms['C1'].serial == 1",
+              "result.atoms['O1'].res_name == 'LIG1' and result.atoms['O1'].res_seq == 1",
+          ],
+          raises={"KeyError": "dup == 1"},
+          name="Mol2Molecule.parse_atoms", native=False)
+def read_mol2_atoms(p, x1, y1, z1, x2, q2, dup):
+    with open(p, "w") as f:
+        f.write("@<TRIPOS>MOLECULE\n")
+        f.write("ligand\n")
+        f.write(" 2 1 0 0 0\n")
+        f.write("\n")
+        f.write("@<TRIPOS>ATOM\n")
+        f.write("      1 C1  " + fmt(x1, ".4f") + " " + fmt(y1, ".4f") + " " + fmt(z1, ".4f") + " c.3     1  LIG1  0.1000\n")
+        f.write("\n")
+        f.write("      2 " + ["O1", "C1"][dup] + "  " + fmt(x2, ".4f") + "   0.5000   1.2500 O.CO2   1  LIG1 " + fmt(q2, ".4f") + "\n")
+        f.write("@<TRIPOS>BOND\n")
+        f.write("     1     1     2    1\n")
+    mol = Mol2Molecule()
+    with open(p) as g:
+        mol.parse_atoms(g)
+    return mol
